@@ -155,15 +155,16 @@ Print Assumptions ring_alloc_does_not_return_on_owned_block.
    The gen_ definitions of gen/Params_C05.v are regenerated from the C text of threadsafe_memory_pool.c,
    sowr_memory_pool.c and ring_memory_pool.c on every run (lib/props/c05_slice.py: atomic loads become the
    inputs ld<k>, a compare-exchange the inputs cur<k> / spur<k>, block pointers become indices, helpers are
-   inlined, retry / scan loops are unrolled twice, init loops are summarised with lfill).  Each obligation:
+   inlined, retry / scan loops are unrolled up to the third atomic operation, init loops are summarised with lfill).  Each obligation:
    generated = reference on the whole domain (every capacity 2^0 .. 2^31 that init accepts, every value of
-   the 32-bit cursors, every value another thread may have stored), and the steps of C05/Model.v that carry
+   the free-running 32-bit cursor of the sowr pool, every ring position (pos_in: below the capacity) of the masked
+   cursors and of the values another thread may have stored into them), and the steps of C05/Model.v that carry
    the same arithmetic expressed with the same references. *)
 Local Open Scope Z_scope.
 
 Theorem gen_ts_alloc_matches_model :
   (forall cap, pow2cap cap -> forall a bs c f ptrs ld1 ld2 cur1 spur1 cur2 spur2,
-     u32 a -> u32 c -> u32 ld1 -> u32 ld2 -> u32 cur1 -> u32 cur2 ->
+     pos_in cap a -> pos_in cap c -> pos_in cap ld1 -> pos_in cap ld2 -> pos_in cap cur1 -> pos_in cap cur2 ->
      gen_ts_alloc a bs c cap f ptrs ld1 ld2 cur1 spur1 cur2 spur2 =
      ref_ts_alloc a bs c cap f ptrs ld1 ld2 cur1 spur1 cur2 spur2) /\
   (forall s t x e ve notes, (0 < t_cap s)%nat -> zn (t_cap s) <= 2147483648 -> (e < t_cap s)%nat ->
@@ -184,7 +185,7 @@ Proof. exact (conj gen_ts_alloc_ref (conj model_ts_segA_ref (conj model_ts_after
 Print Assumptions gen_ts_alloc_matches_model.
 
 Theorem gen_ts_free_matches_model :
-  (forall cap, pow2cap cap -> forall a bs c f ptrs b, u32 f ->
+  (forall cap, pow2cap cap -> forall a bs c f ptrs b, pos_in cap f ->
      gen_ts_free a bs c cap f ptrs b = ref_ts_free a bs c cap f ptrs b) /\
   (forall P s t ch b, ts_geom s -> (t < t_n s)%nat -> t_pc (t_thr s t) = FWrite b ->
      exists s' l, tstep P s t ch = Some (s', l) /\ t_ptrs s' = upd (t_ptrs s) (t_free s) b /\
@@ -195,7 +196,7 @@ Proof. exact (conj gen_ts_free_ref (conj model_ts_free_ref model_ts_store_ref)).
 Print Assumptions gen_ts_free_matches_model.
 
 Theorem gen_sowr_alloc_matches_model :
-  (forall cap, pow2cap cap -> forall a bs c f hb ld, fits cap bs -> u32 a -> u32 c -> u32 ld ->
+  (forall cap, pow2cap cap -> forall a bs c f hb ld, fits cap bs -> u32 a -> pos_in cap c -> u32 ld ->
      gen_sowr_alloc a bs c cap f hb ld = ref_sowr_alloc a bs c cap f hb ld) /\
   (forall P s t ch r, (t < s_n s)%nat -> s_pc (s_thr s t) = SBegin -> s_script (s_thr s t) = OpAlloc :: r ->
      exists s' l, sstep P s t ch = Some (s', l) /\
